@@ -642,6 +642,24 @@ class SpecEval:
                     r = m.any_get(c, a)[0]
                     alts.append(z3.And(m.any_is(c, a), z3.Or(r == 0, z3.And(r >= base, r < env.st.alloc))))
             return z3.Or(*alts)
+        if name == 'printedis':
+            # printedis(j, e): the j-th operand (after the format) of the latest fmt.Printf call on this path is the
+            # value of e (boxed at e's static type)
+            lp = getattr(env.st, 'last_print', None)
+            if lp is None or lp[1] is None:
+                raise SpecError('printedis(): no fmt.Printf call with a literal operand list on this path')
+            j = args[0]
+            if j[0] != 'num':
+                raise SpecError('printedis(): the operand position must be a literal')
+            jj = int(j[1])
+            if jj >= len(lp[1]):
+                return z3.BoolVal(False)
+            v = self.eval(args[1], env)
+            if not isinstance(v, Val):
+                raise SpecError('printedis(): the expected value must be a program value')
+            if m.kind(v.t) == 'interface':
+                return lp[1][jj] == v.leaves[0]
+            return lp[1][jj] == m.any_make(v.t, list(v.leaves))
         if name == 'absent':
             # absent(v): the interface value v is nil or holds a nil pointer (a "typed nil")
             v = self.eval(args[0], env)
